@@ -8,7 +8,7 @@ wt=/tmp/ev_$name; out=/tmp/ev_${name}_out
 rm -rf "$out"; mkdir -p "$out"
 git -C /repo worktree remove --force "$wt" >/dev/null 2>&1
 git -C /repo worktree add -q --detach "$wt" HEAD || exit 2
-if ! git -C "$wt" apply "$patch"; then echo "RESULT $name patch-does-not-apply"; git -C /repo worktree remove --force "$wt"; exit 2; fi
+if ! git -C "$wt" apply "$patch" && ! git -C "$wt" apply -3 "$patch"; then echo "RESULT $name patch-does-not-apply"; git -C /repo worktree remove --force "$wt"; exit 2; fi
 ( cd "$wt" && /venv/bin/python -m pytest -q -p no:cacheprovider --timeout=900 2>&1 | tail -1 ) > "$out/tests.txt"
 tests=$(cat "$out/tests.txt")
 /venv/bin/python "$demo" "$wt" > "$out/demo_with.txt" 2>&1; dw=$?
